@@ -89,7 +89,7 @@ def antisymmetric_projection(dim: int, p_param: int = 2, partial: bool = False) 
 
     anti_proj = np.zeros((dimp, dimp))
     for j in range(p_fac):
-        anti_proj += perm_sign(p_list[j, :]) * permutation_operator(dim * np.ones(p_param), p_list[j, :], False, True)
+        anti_proj += perm_sign(p_list[j, :] + 1) * permutation_operator(dim * np.ones(p_param), p_list[j, :], False, True)
     anti_proj = anti_proj / p_fac
 
     if partial:
